@@ -23,39 +23,61 @@ ASSUME = ["AST-payload graphs are outside the domain (the block-type registry ha
 STAGES = ("none", "closed", "loop", "branch")
 
 
-def roundtrip(g, scfg, semantic=True):
+def roundtrip(g, scfg, semantic=True, default_limit=False):
     """raises M.Viol"""
+    if default_limit:
+        # every library call of the round trip under the interpreter's default recursion limit
+        from vpbt.core import default_recursion_limit
+
+        class _L:
+            def __init__(self, o):
+                self._o = o
+
+            def __getattr__(self, k):
+                f = getattr(self._o, k)
+
+                def call(*a, **kw):
+                    with default_recursion_limit():
+                        return f(*a, **kw)
+
+                return call
+
+        return _roundtrip(g, scfg, semantic, _L)
+    return _roundtrip(g, scfg, semantic, lambda o: o)
+
+
+def _roundtrip(g, scfg, semantic, W):
     ref = canon.dump(scfg, ordered=False)
     try:
-        d = scfg.to_dict()
+        d = W(scfg).to_dict()
     except Exception as e:
         raise M.Viol(f"S-to_dict-raise:{type(e).__name__}@{lib_frame(e)}", f"to_dict raised {type(e).__name__}: {e}")
     try:
-        s2, _ = SCFG.from_dict(d)
+        s2, _ = W(SCFG).from_dict(d)
     except Exception as e:
         raise M.Viol(f"S-from_dict-raise:{type(e).__name__}@{lib_frame(e)}", f"from_dict(to_dict(g)) raised {type(e).__name__}: {e}")
     diff = canon.first_diff(ref, canon.dump(s2, ordered=False))
     if diff:
         raise M.Viol("S-dict-roundtrip", f"graph re-read from its dictionary differs: {diff}")
     try:
-        d2 = s2.to_dict()
+        d2 = W(s2).to_dict()
     except Exception as e:
         raise M.Viol(f"S-to_dict-raise:{type(e).__name__}@{lib_frame(e)}", f"to_dict of the re-read graph raised {type(e).__name__}: {e}")
     if d2 != d:
         raise M.Viol("S-dict-stable", f"to_dict(from_dict(d)) != d: {canon.first_diff(d, d2)}")
     try:
-        y = scfg.to_yaml()
+        y = W(scfg).to_yaml()
     except Exception as e:
         raise M.Viol(f"S-to_yaml-raise:{type(e).__name__}@{lib_frame(e)}", f"to_yaml raised {type(e).__name__}: {e}")
     try:
-        s3, _ = SCFG.from_yaml(y)
+        s3, _ = W(SCFG).from_yaml(y)
     except Exception as e:
         raise M.Viol(f"S-from_yaml-raise:{type(e).__name__}@{lib_frame(e)}", f"from_yaml(to_yaml(g)) raised {type(e).__name__}: {e}")
     diff = canon.first_diff(ref, canon.dump(s3, ordered=False))
     if diff:
         raise M.Viol("S-yaml-roundtrip", f"graph re-read from its YAML differs: {diff}")
     try:
-        y2 = s3.to_yaml()
+        y2 = W(s3).to_yaml()
     except Exception as e:
         raise M.Viol(f"S-to_yaml-raise:{type(e).__name__}@{lib_frame(e)}", f"to_yaml of the re-read graph raised {type(e).__name__}: {e}")
     if y2 != y:
@@ -197,7 +219,38 @@ def _run_arb(spec):
     return col.result()
 
 
+def _run_deep(spec):
+    """deeply nested graphs (if in if in if ..., loop in loop in loop ...), every stage; the library is called under
+    the interpreter's default recursion limit"""
+    from vpbt.checks import c02
+    from vpbt.core import Collector, default_recursion_limit
+
+    col = Collector()
+    f = {"nest": c02._big_nest, "comb": c02._big_comb}[spec[2]]
+    intg = f(spec[1])
+    g = gg.restyle(intg, "num")
+    for stage in ("closed", "branch"):
+        scfg = M.mk_scfg(g, "plain")
+        try:
+            with default_recursion_limit():
+                M.apply_stage(scfg, stage)
+        except Exception as e:
+            if not library_raised(e):
+                raise
+            col.count("not_evaluated_stage_raised")
+            continue
+        col.count("roundtrips")
+        try:
+            roundtrip(g, scfg, semantic=False, default_limit=True)
+        except M.Viol as v:
+            col.fail(f"C15:deep:{v.clause}", f"[{stage}] {spec[2]} graph of {len(g)} blocks, hierarchy depth {M.Flat(scfg).depth}: {v.msg}", dict(deep=[spec[1], spec[2]]), 10)
+    col.case(("deep", spec[1], spec[2]), len(g), True, sample=dict(shape=spec[2], blocks=len(g), origin="deep"), classes=["origin:deep"])
+    return col.result()
+
+
 def run(spec):
+    if spec[0] == "deep":
+        return _run_deep(spec)
     if spec[0] == "arb":
         return _run_arb(spec)
     if spec[0] == "byteflow":
@@ -223,13 +276,18 @@ def plan(tier, seed):
     if tier == "quick":
         specs += [("byteflow", s, 16, 12) for s in range(16)]
         specs += [("arb", seed, s, 150) for s in range(8)]
+        specs += [("deep", 120, "comb"), ("deep", 120, "nest"), ("deep", 300, "comb")]
     else:
         specs += [("byteflow", s, 16, 10**9) for s in range(16)]
         specs += [("arb", seed, s, 3000) for s in range(16)]
+        specs += [("deep", 120, "comb"), ("deep", 120, "nest"), ("deep", 300, "comb"), ("deep", 300, "nest"), ("deep", 500, "comb")]
     return specs
 
 
 def replay(inp):
+    if "deep" in inp:
+        r = _run_deep(("deep", inp["deep"][0], inp["deep"][1]))
+        return [(s_, f["msg"]) for s_, f in r["failures"].items()]
     if "function" in inp:
         from vpbt import bytecode_model as bm
         from vpbt.core import Collector
